@@ -313,7 +313,7 @@ claim("C06",
 # clauses added after the independent seeded changes (DESIGN §8); appended to the level text
 EXTRA = {
  "C20": " Round 2: a confirm for an unknown block is cached on every path; nothing but the operator's file and listed parents puts a block on the blacklist. Round 3: every consumed timer tick re-arms the timer; the pool's existence test and insert share one hold of its mutex (C18.3 evaluated here); cached confirms are merged before every hand-over of a block to InsertBlock, helper or written-out form. Round 4: sends of package network on its own channels block (no select-with-default). Round 5: the confirm filters' error decides nothing unless the good list is empty; needConfirm measures against the later of last signature and stable block.",
- "C19": " Round 2: the confirm filter and the save of filtered confirms hold chainLock; the pending-write index rules are evaluated here as well. Round 3: saveNewBlock records a block in the replay guard before publishing it as the head; RPC account reads go through the canonical (stable, copied) account view only. Round 4: the loop-variable capture rule of C20.1 is evaluated here as well. Round 5: the re-entry rule counts a read lock inside a read lock; the last-signed record is compared and written under one hold.",
+ "C19": " Round 2: the confirm filter and the save of filtered confirms hold chainLock; the pending-write index rules are evaluated here as well. Round 3: saveNewBlock records a block in the replay guard before publishing it as the head; RPC account reads go through the canonical (stable, copied) account view only. Round 4: the loop-variable capture rule of C20.1 is evaluated here as well. Round 5: the re-entry rule counts a read lock inside a read lock; the last-signed record is compared and written under one hold. Round 6: a term record is written only by the function that allocated it (published records are read without the manager's lock).",
  "C17": " Round 2: Hash/Commit answer from hashRoot over the current root or from a memo every content write drops; the value slot of a branch node and a short node's value child are never passed to the recursive hash. Round 3: nothing is appended to a slice read from a node's key (the backing array is shared between trie versions). Round 4: MerkleTree.nodes is made in place or extends itself; the proof walker matches a short node's key against the front of the remaining key. Round 5: stores into a branch node's children go to a node copied or made in that function.",
  "C12": " Round 2: the equity trie root has a closed writer set and its raw setter is reached only from the EquityRootLog's redo/undo. Round 3: no in-place big.Int mutation on shared receivers; IsValuable compares old and new symmetrically. Round 4: the five asset setters push their change log before the raw write. Round 5: the copy-at-the-boundary clause C09.6 is evaluated here as well.",
  "C08": " Round 2: an accepted recovery scan returns the scan cursor, not the file size; RunContext.Flush reports success only after the file was replaced, or skips under a dirty flag that every writer of the candidate cache raises; every insert into the pending-write index counts the pending writes of its key. Round 3: the candidate cache cursor after a load comes from the input length; the replay-guard reload clause is evaluated here as well.",
@@ -323,15 +323,15 @@ EXTRA = {
  "C01": " Also: block gas is accounted identically by miner and validator (closed callers of the gas pool, filled once from header.GasLimit), and the change-journal clauses of C07 are evaluated here as well (independence from discarded candidates needs an exact revert). Round 2: nothing is carried from one block's execution to the next (package-level writes in the closure are table-listed; executor fields are constructor-only or unconditionally re-initialised before the first transaction; Reset(ParentHash) dominates every applyTx and return), and the map-order exemption of ChangeVotesByBalance has needMerge(VotesLog)=true as a partially evaluated premise. Round 3: node-local state of shared objects read inside the closure is table-listed (outside-state rule). Round 4: the provisional version map of an account is read by the version accessor only (C07.10). Round 5: the header the miner executes with is the header it seals (C13.2 clause).",
  "C02": " Also: after a restart the replay guard is refilled over the window measured from the stable block's time (not the wall clock). Round 2: Seal fills a copy of the header; the C04 clauses are evaluated under C02 as well. Round 3: the older-than-parent guard tests the raw time difference. Round 4: no chain-state mutator in the call-graph closure of VerifyAndSeal; recoverSigners recovers from the stored signature bytes. Round 5: the sign clause of VerifyTxBody (C05.7) is evaluated here as well.",
  "C03": " Also: every advance of the stable root prunes from the root that was stable immediately before that step. Round 2: snapshot votes, confirm counting and the two-thirds threshold draw on one deputy set. Round 3: GetUnConfirmByHeight answers from the unconfirmed map only; every confirm signature is recorded in lastSig before control leaves. Round 4: the confirm filter and the save of what it let through hold chainLock (C19.1 clause); every mergeConfirmsFromCache is followed by InsertBlock of the same block.",
- "C07": " Also: undo/redo write only through the accessor setters of their journalling sibling, and copy-in setters re-initialise their destination before copying. Round 2: a constructed change log is pushed on every path to the raw write; the snapshot precedes the first journalled write of its step. Round 3: the all-or-nothing clause C16.4 is evaluated here as well. Round 4: IsValuable compares whole values; the provisional version map is not observable (C07.10). Round 5: the storage cache keeps nil as nil; a self-destruct is journalled at most once per account.",
+ "C07": " Also: undo/redo write only through the accessor setters of their journalling sibling, and copy-in setters re-initialise their destination before copying. Round 2: a constructed change log is pushed on every path to the raw write; the snapshot precedes the first journalled write of its step. Round 3: the all-or-nothing clause C16.4 is evaluated here as well. Round 4: IsValuable compares whole values; the provisional version map is not observable (C07.10). Round 5: the storage cache keeps nil as nil; a self-destruct is journalled at most once per account. Round 6: StorageCache.SetState records every write in the dirty map on every path (redo writes without reading first).",
  "C09": " Also: a node made to carry an existing node's account keeps that node's dye. Round 2: the manager's mutable account never aliases a value cached in a view (Get returns copies or NewAccount copies); the pending-write index rules are evaluated here as well. Round 3: AccountData.Copy is deep for what is written in place; the BitCask.Put rules (cursor read after the flush) are evaluated here as well. Round 4: IsSameBlock answers by hash comparison only. Round 5: cloned views share no map or slice by reference.",
- "C10": " Also: the list ranked at start-up is built only from candidates whose stored isCandidate flag is true. Round 2: every list that becomes a published Top has the provenance of the total order (ranking result, published Top, order-preserving filter/prefix, empty), interprocedurally; no account Put of Save runs after the ranking; needMerge(VotesLog) by partial evaluation. Round 3: LoadTopCandidates reads accounts through Manager.GetAccount; what is put into the candidate cache is flushed or skipped only under a maintained dirty flag. Round 4: the copy-on-write clause of PatriciaTrie.put and Finalize's votes-pass ≺ merge ≺ finalise order are evaluated here as well. Round 5: the vote-writer and candidate-guard clauses C11.2/C11.3 are evaluated here as well.",
+ "C10": " Also: the list ranked at start-up is built only from candidates whose stored isCandidate flag is true. Round 2: every list that becomes a published Top has the provenance of the total order (ranking result, published Top, order-preserving filter/prefix, empty), interprocedurally; no account Put of Save runs after the ranking; needMerge(VotesLog) by partial evaluation. Round 3: LoadTopCandidates reads accounts through Manager.GetAccount; what is put into the candidate cache is flushed or skipped only under a maintained dirty flag. Round 4: the copy-on-write clause of PatriciaTrie.put and Finalize's votes-pass ≺ merge ≺ finalise order are evaluated here as well. Round 5: the vote-writer and candidate-guard clauses C11.2/C11.3 are evaluated here as well. Round 6: in CandidateCache.Set every update of the position index is dominated by a write of the record head into the persisted buffer.",
  "C11": " Also: the balance a vote transaction weighs is read before the transaction's gas purchase. Round 2: outside the journal every SetVotes is relative to GetVotes of the same account or one of three listed absolute writes. Round 3: the copy-depth premise (own Votes and Profile per account copy) is evaluated here as well. Round 4: a profile update copies no transaction-supplied deposit amount or node id; vote arithmetic does not read the stable-block account view. Round 5: balance votes are computed as the difference of two quotients (formula shape).",
  "C13": " Also: miner and verifier read the deputy set of parent height + 1 for round length and rotation and consult the parent's miner only outside the height-1 / first-block-of-term case (input agreement, not arithmetic). Round 2: round length and rotation answer from one cut deputy list (C03.6 evaluated here). Slot arithmetic stays undecided (a seeded change of GetNextMineWindow's arithmetic is not caught). Round 3: miner and verifier use the same term-start predicates; no init-time snapshot of configurable parameters. Round 4: NewTermRecord refuses rank ≠ index; the miner's slot length is MineConfig.Timeout unmodified.",
  "C14": " Also: no fast path to success around the fetch the canonical test inspects; custom decoders fill no field from a sibling field. Round 2: custom decoders consume the value they decode (or their type is decoded only where nothing can follow); narrow-typed indices into fixed arrays are in range. Round 3: the hexutil/base26 encoders do not narrow an integer on the way from the receiver to the output. Round 4: hash and signing hashes are computed from data only (no second cache). Round 5: every access to the rlp type-info cache holds its mutex.",
  "C15": " Also (C15.8): every sub transaction of a decoded box is non-nil when GetBox succeeds and every reader gets its box from GetBox; results of network functions with a `return nil` path are nil-tested by every caller before use. Round 2: the crash-site inventory has a per-(package, kind) budget for sites that move inside their package. Round 2: integer divisions in the network closure are zero-tested or inventoried with the invariant that keeps the divisor from zero; the ordering premise (signer and height checks heeded before the miner-slot check) is an obligation. Round 3: decodes into interface{} are guarded by an empty-only size test. Round 4: a mutex field of the network layer that a function locks is released before every return and before its loop comes round. Round 5: a JSON transaction lacking a *big.Int field is refused; no make in package network is sized by a parameter or message field.",
  "C16": " Also (C16.7): SetCallCode's hash identifies the installed code (key of the jump-destination cache). Round 2: a stipend added to the nested frame's gas is paid by the value-transfer surcharge of the opcode's gas function. Round 3: the integer pool recycles only integers the frame owns. Round 4: the C07 journal clauses are evaluated here as well; no raw uint64 product of two run-time values in a pricing function. Round 5: Memory.Get/GetPtr slice only for operands with a length; every ReadContract request runs on a manager made for it.",
- "C18": " Also: DelTxs on a fork switch receives the unfiltered new-fork list. Round 2: index inserts happen under the same hold of the pool mutex as the existence test; every indexer expands boxes. Round 3: the slot-indexed fields of the pool are replaced together; delTx expands a box whatever its own index lookup says. Round 4: onCurrentChanged gets the head before and after the fork update at every site; sub transactions are looked at only for BoxTx. Round 5: the existence test reads the index only; the replay guard forgets old blocks only after the fork update and pool fix-up.",
+ "C18": " Also: DelTxs on a fork switch receives the unfiltered new-fork list. Round 2: index inserts happen under the same hold of the pool mutex as the existence test; every indexer expands boxes. Round 3: the slot-indexed fields of the pool are replaced together; delTx expands a box whatever its own index lookup says. Round 4: onCurrentChanged gets the head before and after the fork update at every site; sub transactions are looked at only for BoxTx. Round 5: the existence test reads the index only; the replay guard forgets old blocks only after the fork update and pool fix-up. Round 6: every store to the slot list appends, grows to the same length, or resets the index map too (slot numbers stay valid while indexed).",
 }
 for _pid, _t in EXTRA.items():
     if _pid in CLAIMED:
